@@ -146,7 +146,7 @@ def store():
         print("stored", sid)
 
 
-def evaluate(ids, tier="quick"):
+def evaluate(ids, tier="quick", seed=None, confirm=True):
     for sid in ids:
         dst = os.path.join(SEEDED, sid)
         mp = os.path.join(dst, "meta.json")
@@ -180,9 +180,11 @@ def evaluate(ids, tier="quick"):
             for chk in meta["checks_expected_to_catch"]:
                 t0 = time.time()
                 env = dict(ENV, VERIF_REPO=wt)
+                if seed is not None:
+                    env["VERIF_SEED"] = str(seed)
                 r = subprocess.run([os.path.join(VERIF, "check"), chk, tier], env=env, stdout=subprocess.PIPE, stderr=subprocess.STDOUT, text=True, errors="replace")
                 lines = [l for l in r.stdout.splitlines() if "violated" in l or l.startswith("VIOLATION")]
-                det[f"{chk} {tier}"] = {"exit": r.returncode, "caught": r.returncode == 1, "seconds": round(time.time() - t0, 1),
+                det[f"{chk} {tier}" + (f" seed={seed}" if seed is not None else "")] = {"exit": r.returncode, "caught": r.returncode == 1, "seconds": round(time.time() - t0, 1),
                                         "first_report": (lines[0].strip()[:400] if lines else "")}
                 print(sid, chk, tier, "exit", r.returncode, f"{time.time()-t0:.0f}s")
             meta["detection"] = det
@@ -203,4 +205,8 @@ if __name__ == "__main__":
         ids = [a for a in sys.argv[2:] if not a.startswith("--")]
         if "--thorough" in sys.argv:
             tier = "thorough"
-        evaluate(ids or sorted(os.listdir(SEEDED)), tier)
+        seed = None
+        for a in sys.argv[2:]:
+            if a.startswith("--seed="):
+                seed = int(a.split("=")[1])
+        evaluate(ids or sorted(os.listdir(SEEDED)), tier, seed)
